@@ -28,6 +28,15 @@ func init() {
 			ruleRawVsCompressed(c, r, "")
 			ruleChunkLimits(c, r, "")
 			ruleWriter2(c, r, t, "")
+			// "a chunk sequence ends with the end chunk": the source running dry at a chunk boundary is an
+			// unexpected EOF, never a clean end (EF-EOF over the LZMA2 reader); matches never reach behind a
+			// dictionary reset (window-length guards of the decoder dictionary); raw chunk refill contract
+			{
+				api := nonNilFns(c.Func("lzma", "Reader2.Read"), c.Func("lzma", "NewReader2"), c.Func("lzma", "Reader2Config.NewReader2"))
+				ruleEOF(c, r, api, c.Cone(api...), "")
+			}
+			ruleDecoderBounds(c, r, "")
+			ruleReaderFrom(c, r, "")
 			r.Floor("SEQ-STARTCHUNK", 7)
 			r.Floor("CE-CHUNK-AUTOMATON", 1)
 			r.Floor("CE-CTRL", 2)
